@@ -284,6 +284,10 @@ pub fn cert_space(conformant_only: bool, with_hash_key_ids: bool) -> Space<CertS
         ("all seven", vec![EkuSpec::Any, EkuSpec::ServerAuth, EkuSpec::ClientAuth, EkuSpec::CodeSigning, EkuSpec::EmailProtection, EkuSpec::TimeStamping, EkuSpec::OcspSigning]),
         ("duplicate", vec![EkuSpec::ServerAuth, EkuSpec::ServerAuth]),
         ("duplicates among four", vec![EkuSpec::ServerAuth, EkuSpec::ClientAuth, EkuSpec::ServerAuth, EkuSpec::CodeSigning, EkuSpec::OcspSigning, EkuSpec::ClientAuth]),
+        // a purpose given by its OID (Other) although it has a name, alone and next to its named twin: what is asked for is written
+        ("other with the OID of clientAuth", vec![EkuSpec::Other(vec![1, 3, 6, 1, 5, 5, 7, 3, 2])]),
+        ("clientAuth by name and by OID, serverAuth", vec![EkuSpec::ClientAuth, EkuSpec::Other(vec![1, 3, 6, 1, 5, 5, 7, 3, 2]), EkuSpec::ServerAuth]),
+        ("any by OID, then any by name", vec![EkuSpec::Other(vec![2, 5, 29, 37, 0]), EkuSpec::Any]),
     ];
     for (l, v) in ekus {
         d = d.v(l, move |s: &mut CertState| s.ekus = v.clone());
